@@ -1,5 +1,6 @@
 #!/bin/sh
 # tools/harmless_one.sh <id> [props...]: apply one harmless refactoring, run the checks, undo; prints one line per property
+export PYVC_EVIDENCE_DIR=${PYVC_EVIDENCE_DIR:-/tmp/pyvc_evidence_scratch}   # runs on modified trees never overwrite /verif/evidence
 ID=$1; shift
 PROPS=${*:-"C01 C02 C03 C04 C05 C06 C07 C08 C09 C10 C11 C12 C13 C14 C15 C16 C17"}
 [ -z "$(git -C /repo status --porcelain --untracked-files=no)" ] || { echo "/repo not clean"; exit 3; }
